@@ -412,12 +412,68 @@ def run_case(ctx, inp):
     res.nontrivial = nontrivial
     if len(inp["particles"]) >= 1:
         _check_ensemble(ctx, inp, res, df, per, hdr, cols, pos_columns, mpp, fps, ML)
+    if not res.viol and len(inp["particles"]) >= 1:
+        _check_frame_shift(inp, res, df, pos_columns, mpp, fps, ML)
     if nontrivial and not res.viol:
         p0 = inp["particles"][0]
         res.sample = dict(particles=len(inp["particles"]), d=d, mpp=inp["mpp"], fps=inp["fps"],
                           max_lagtime=ML, first_particle_frames=[r[0] for r in p0["rows"]][:12],
                           oracle_msd_lag1=str(per[p0["pid"]]["oracle"].get(1, {}).get("msd")))
     return res
+
+
+def _check_frame_shift(inp, res, df, pos_columns, mpp, fps, ML):
+    """The statistic is defined through pairs of observations n frames APART (and the weights through
+    the shape of each trajectory): renumbering all frames by a constant cannot change msd / emsd, its
+    index, nor the weights N.  The table is shifted so that it starts at frame 0 and by +1000."""
+    import numpy as np
+    from trackpy.motion import emsd, imsd
+    f0 = int(df["frame"].min())
+    shifts = [k for k in (-f0, 1000) if k != 0]
+
+    def run(tab):
+        em = emsd(tab, _mpp_arg(inp, mpp), float(fps), ML, detail=True, pos_columns=pos_columns)
+        im = imsd(tab, _mpp_arg(inp, mpp), float(fps), ML, pos_columns=pos_columns)
+        return em, im
+    try:
+        em0, im0 = run(df)
+    except Exception:
+        return                                          # judged by the ensemble check
+    for k in shifts:
+        tab = df.copy()
+        tab["frame"] = tab["frame"] + k
+        try:
+            em1, im1 = run(tab)
+        except Exception as e:
+            res.violation("property-violation", "frames renumbered by %+d: %s: %s (no exception "
+                          "with the original numbering)" % (k, type(e).__name__, e), impl=repr(e),
+                          broken="defect-class msd/frame-shift",
+                          signature=dict(fn="emsd", what="frame-shift-exception"))
+            return
+        res.stat("frame_shift_compared")
+        bad = None
+        for name, a, b in (("emsd", em0, em1), ("imsd", im0, im1)):
+            if list(a.index.values) != list(b.index.values) and not (
+                    len(a) == len(b) and np.allclose(np.asarray(a.index.values, float),
+                                                     np.asarray(b.index.values, float), rtol=1e-12)):
+                bad = "%s: the lags listed change (%d vs %d rows)" % (name, len(a), len(b))
+                break
+            if list(a.columns) != list(b.columns):
+                bad = "%s: columns change" % name
+                break
+            va, vb = a.values.astype(float), b.values.astype(float)
+            ok = (np.isnan(va) & np.isnan(vb)) | np.isclose(va, vb, rtol=1e-9, atol=0)
+            if not ok.all():
+                i, j = [int(x[0]) for x in np.where(~ok)]
+                bad = ("%s: row %d column %s is %r, with the original numbering %r"
+                       % (name, i, a.columns[j], vb[i, j], va[i, j]))
+                break
+        if bad:
+            res.violation("property-violation",
+                          "frames renumbered by %+d (same trajectories): %s" % (k, bad),
+                          impl=bad, broken="defect-class msd/frame-shift",
+                          signature=dict(fn="emsd", what="frame-shift"))
+            return
 
 
 def _check_ensemble(ctx, inp, res, df, per, hdr, cols, pos_columns, mpp, fps, ML):
